@@ -25,6 +25,7 @@ Hashing to the curve is compared on every run with the RFC 9380 construction of 
 import RelicVerif.Lemmas.EdFormulas
 import RelicVerif.Lemmas.EdGroup
 import RelicVerif.Lemmas.EdMul
+import RelicVerif.Lemmas.EdLot
 import RelicVerif.Lemmas.EdConv
 import Mathlib.Algebra.Field.ZMod
 
@@ -211,10 +212,40 @@ theorem mul_sim (isO : G → Bool) (hO : IsOSound isO) (par : Par) (hok : par.Ok
     simInter_correct isO hO par hok hw mul p k q m hp hq hmp hmq, simJoint_correct isO hO par hok mul p k q m hp hq hmp hmq,
     simPlainGen_correct par hok hw hd p k q m hp hq⟩
 
+/-- ed_mul_pre_combd + ed_mul_fix_combd (double-table comb; Model/EdMul.lean `mulFixCombd` = the shared models `tabCombd`,
+    `mulCombd` of Model/EpMul.lean with the constants dd = ⌈bits(r)/depth⌉, e = ⌈dd/2⌉ of the C code): total, [k]P for every
+    integer k, every depth ≥ 1 — corollary of C03.mul_fix_combd_correct -/
+theorem mul_fix_combd (par : Par) (hok : par.Ok) (hd : 1 ≤ par.depth) (p : G) (hp : (par.ord : ℤ) • p = 0) (k : ℤ) :
+    mulFixCombd gops par p k = some (k • p) :=
+  mulFixCombd_correct par hok hd p hp k
+
+/-- ed_mul_sim_lot: total and Σ kᵢ • Pᵢ for EVERY list of (point, scalar) pairs: any number of points (also none), scalars of
+    any sign and length (the routine does not reduce them, hence no hypothesis on the points) — corollary of
+    C03.mul_sim_lot_plain_correct plus the totality of the recoding at capacity max bits + 1 -/
+theorem mul_sim_lot (pks : List (G × ℤ)) :
+    simLot gops pks = some ((pks.map fun pk => pk.2 • pk.1).sum) :=
+  simLot_correct pks
+
+/-- ed_mul_dig: total, [k]P for every digit k < 2^w and every point (recoding buffer of w + 1 entries) -/
+theorem mul_dig (isO : G → Bool) (hO : IsOSound isO) (w : Nat) (p : G) (k : Nat) (hk : k < 2 ^ w) :
+    mulDig gops isO w p k = some ((k : ℤ) • p) :=
+  mulDig_correct isO hO w p k hk
+
+/-- the dispatch of ed_mul_gen and ed_mul_sim_gen (early exits k = 0, m = 0 ∨ Q = O; generator-table branch or ed_mul_sim) is right
+    whenever the routines it calls are (those are `mul_variable_base`, `mul_fixed_base`, `mul_fix_combd`, `mul_sim`) -/
+theorem mul_gen_dispatch (isO : G → Bool) (hO : IsOSound isO) (mul fix : G → ℤ → Option G) (sim : G → ℤ → G → ℤ → Option G)
+    (plain : Option (G → ℤ → G → ℤ → Option G)) (g : G) (k : ℤ) (q : G) (m : ℤ)
+    (hmul : mul q m = some (m • q)) (hfix : fix g k = some (k • g)) (hsim : sim g k q m = some (k • g + m • q))
+    (hplain : ∀ f, plain = some f → f g k q m = some (k • g + m • q)) :
+    mulGen gops fix g k = some (k • g) ∧ simGen gops isO mul fix sim plain g k q m = some (k • g + m • q) :=
+  ⟨mulGen_correct fix g k hfix, simGen_correct isO hO mul fix sim plain g k q m hmul hfix hsim hplain⟩
+
 /-- the hypotheses are satisfiable (ℤ/7ℤ is killed by 7 < 2^255) and the routines compute (−153 mod 7 = 1) -/
 example : (⟨255, 4, 5, 7⟩ : Par).Ok ∧ ((7 : ℕ) : ℤ) • (1 : ZMod 7) = 0 :=
   ⟨⟨by decide, by norm_num⟩, by decide⟩
 example : mulLwnaf (gops : Ops ℤ) (fun x => x == 0) ⟨255, 4, 5, 7⟩ 1 (-153) = some 1 := by decide
+example : mulFixCombd (gops : Ops ℤ) ⟨255, 4, 2, 7⟩ 1 (-153) = some 1 := by decide
+example : simLot (gops : Ops ℤ) [(1, -153), (10, 7), (100, 0)] = some (-83) := by decide
 
 end Mul
 
